@@ -31,6 +31,7 @@ RULE = ('JSON: the full matrix dtype {bool,int8..uint64,float16/32/64, big-endia
         'key, or a quoted table cell.')
 RULE += ' Round 5: digit-only string keys in nested dictionaries; cluster ids beyond 2**53 in two-column tables.'
 RULE += ' Round 6: strings that look like fragments of the formats; rows repeating the header; tuples in parameter files.'
+RULE += " Round 7: several views of one buffer in one dictionary; cells starting with '#'; a list of path names whose parameter line exceeds 99 characters."
 EXHAUSTIVE = {'quick': True, 'thorough': True}
 EXHAUSTIVE_SCOPE = {'quick': 'array matrix (dtype x rank x layout x length) exhaustive; dictionaries, '
                              'tables and params sampled', 'thorough': 'same matrix; larger random part'}
